@@ -327,3 +327,65 @@ func RSkipTaken(c *core.Ctx) {
 		c.Anchor("p.capnames[name] = p.autocap in assignNameSlots")
 	}
 }
+
+// ---------------------------------------------------------------------------
+// R-CAPSKEY: the number->slot map is consulted only for real group numbers.
+// Negative "numbers" are not groups: -1 is "no group", values below it encode
+// the replacement specials ($` $' $+ $_).  A plain read m[k] of a map[int]int
+// answers 0 for a missing key — and 0 is the slot of the whole match — so a
+// special pushed through the map silently turns into $0.
+// ---------------------------------------------------------------------------
+
+func RCapsKey(c *core.Ctx) {
+	c.Rule("R-CAPSKEY", "every single-result read m[k] of a map[int]int (the capture number -> slot maps) is dominated by a test that excludes the non-group keys (k >= 0, or k != -1 where -1 is the only non-group value possible) — a missing key would be answered with 0, the slot of the whole match; reads in the `v, ok := m[k]` form are exempt", 2)
+	p := c.P
+	n := 0
+	for _, fn := range p.ModuleFuncs() {
+		name := core.SSAName(fn)
+		cnt := 0
+		for _, b := range fn.Blocks {
+			for _, ins := range b.Instrs {
+				lk, ok := ins.(*ssa.Lookup)
+				if !ok || lk.CommaOk {
+					continue
+				}
+				mt, ok := lk.X.Type().Underlying().(*types.Map)
+				if !ok {
+					continue
+				}
+				kb, ok1 := mt.Key().Underlying().(*types.Basic)
+				eb, ok2 := mt.Elem().Underlying().(*types.Basic)
+				if !ok1 || !ok2 || kb.Kind() != types.Int || eb.Kind() != types.Int {
+					continue
+				}
+				cnt++
+				n++
+				c.Visit(name)
+				guarded := false
+				for _, f := range core.FactsAtBlock(b) {
+					x, y, op, ok := core.CmpNorm(f)
+					if !ok {
+						continue
+					}
+					kx, xc := core.IntConst(x)
+					ky, yc := core.IntConst(y)
+					switch {
+					case yc && x == lk.Index && op == token.NEQ && ky == -1: // k != -1
+						guarded = true
+					case xc && y == lk.Index && op == token.NEQ && kx == -1:
+						guarded = true
+					case xc && y == lk.Index && op == token.LEQ && kx >= 0: // 0 <= k
+						guarded = true
+					case xc && y == lk.Index && op == token.LSS && kx >= -1: // -1 < k
+						guarded = true
+					}
+				}
+				c.Check(guarded, fmt.Sprintf("%s / map read #%d is made only for group numbers", name, cnt), lk.Pos(),
+					"the key can be negative here (no dominating `key >= 0` / `key != -1` test): -1 and the replacement specials are not in the map and read as 0, the slot of the whole match")
+			}
+		}
+	}
+	if n == 0 {
+		c.Anchor("single-result reads of a map[int]int")
+	}
+}
